@@ -54,7 +54,19 @@ Inductive fname :=
   | FFind | FFindIf | FPosition | FPositionIf | FCount | FCountIf
   | FRemove | FRemoveIf | FDelete | FDeleteIf
   | FSubstitute | FSubstituteIf | FNsubstitute | FNsubstituteIf
-  | FRemoveDuplicates | FDeleteDuplicates.
+  | FRemoveDuplicates | FDeleteDuplicates
+  | FMember | FMemberIf | FAssoc | FAssocIf | FAssocIfNot | FRassoc | FRassocIf
+  | FSearch | FMismatch
+  | FSubseq | FReplace | FFill | FReverse | FNreverse
+  | FSort | FStableSort | FMerge
+  | FUnion | FIntersection | FSetDifference | FSubsetp
+  | FEvery | FSome | FNotany | FNotevery
+  | FMap | FMapcar | FReduce | FConcatenate.
+
+(* two-argument functions handed to reduce / map: + - max min, first and second projection *)
+Inductive binop := BAdd | BSub | BMax | BMin | BFirst | BSecond.
+Definition binop_app (o : binop) (a b : Z) : Z :=
+  match o with BAdd => a + b | BSub => a - b | BMax => Z.max a b | BMin => Z.min a b | BFirst => a | BSecond => b end.
 
 Record call := mkCall {
   c_fn : fname;
@@ -65,12 +77,17 @@ Record call := mkCall {
   c_seq2 : seqin;
   c_start : option nat;    (* None: absent *)
   c_end : option nat;      (* None: absent or nil *)
+  c_end_nil : bool;        (* :end nil was written (c_end = None) *)
   c_start2 : option nat;
   c_end2 : option nat;
   c_key : option keyfn;
   c_test : testarg;
   c_count : countarg;
-  c_from_end : bool
+  c_from_end : bool;
+  c_op : binop;            (* reduce / two-sequence map *)
+  c_init : option Z;       (* reduce :initial-value *)
+  c_nseq : nat;            (* every some notany notevery map mapcar: 1 or 2 sequences *)
+  c_flag : bool            (* some: the predicate returns the element instead of t *)
 }.
 
 Inductive errc := EType | EError | EFault | EUndefined | EOther.
